@@ -298,11 +298,19 @@ def unq(s):
 # --------------------------------------------------------------------------- context
 
 def load_known():
+    """known_findings.json (reviewed) plus known_findings.d/*.json (per-property files)."""
+    out = []
     p = os.path.join(VERIF, "known_findings.json")
-    if not os.path.exists(p):
-        return []
-    with open(p) as f:
-        return json.load(f)["findings"]
+    if os.path.exists(p):
+        with open(p) as f:
+            out += json.load(f)["findings"]
+    d = os.path.join(VERIF, "known_findings.d")
+    if os.path.isdir(d):
+        for n in sorted(os.listdir(d)):
+            if n.endswith(".json"):
+                with open(os.path.join(d, n)) as f:
+                    out += json.load(f)["findings"]
+    return out
 
 
 class Ctx:
@@ -384,6 +392,20 @@ class Ctx:
             json.dump(ev, f, indent=1, default=repr)
         os.rename(p + ".tmp", p)
         return 1 if self.violations else 0
+
+
+def tlc_verdicts(ctx, module, data, head="VERDICT", cfg=None, name=None, workers=1, extra_env=None,
+                 timeout=3600):
+    """Write `data` as JSON, run the trace/batch specification `module` on it (the spec reads
+    IOEnv.TRACE_FILE) and return the PrintT'ed <<head, ...>> tuples as lists of raw strings
+    (use core.unq / int on the elements)."""
+    path = os.path.join(ctx.tmp, "%s_%d.json" % (module, len(ctx.cov["tlc_runs"])))
+    write_json(path, data)
+    env = {"TRACE_FILE": path}
+    env.update(extra_env or {})
+    r = tlc(module, cfg, workers=workers, env=env, timeout=timeout)
+    ctx.add_tlc(name or module, r, count_states=False)
+    return tla_tuples(r.out, head)
 
 
 def write_json(path, obj):
